@@ -12,6 +12,7 @@ NAMES = ["a", "b", "c"]
 DEFAULTS = ["none", "int", "None", "field"]
 REC = []
 RET = [7]          # what the generated actor returns (set per scenario)
+OPT = [False]      # int parameters are annotated Optional[int] (an annotation, not a default)
 RETURNS = [7, float("inf"), {"ratio": [1.5, float("-inf")]}]
 
 
@@ -28,7 +29,7 @@ def build_fn(spec):
     star_done = False
     n_po = sum(1 for s in spec if s[1] == "PO")
     for idx, (name, kind, dk, dep) in enumerate(spec):
-        ann = "Annotated[str, Depends(provider)]" if dep else "int"
+        ann = "Annotated[str, Depends(provider)]" if dep else ("Optional[int]" if OPT[0] else "int")
         dflt = {"none": "", "int": f" = {100 + idx}", "None": " = None", "field": f" = Field(default={100 + idx}, ge=0)"}[dk]
         if kind == "PO":
             parts.append(f"{name}: {ann}{dflt}")
@@ -49,7 +50,7 @@ def build_fn(spec):
     names = [s[0] for s in spec]
     src = f"async def actor({', '.join(parts)}):\n    REC.append(dict({', '.join(f'{n}={n}' for n in names)}))\n    return RET[0]\n"
     import pydantic
-    ns = {"Annotated": Annotated, "Depends": Depends, "provider": provider, "REC": REC, "Field": pydantic.Field, "RET": RET}
+    ns = {"Annotated": Annotated, "Depends": Depends, "provider": provider, "REC": REC, "Field": pydantic.Field, "RET": RET, "Optional": __import__("typing").Optional}
     exec(src, ns)  # noqa: S102
     return ns["actor"], src
 
@@ -100,6 +101,7 @@ def h08_bind(S, n_max=2):
         S.cover("invalid-signature-skipped")
         return
     ret = RETURNS[S.pick("return_value", len(RETURNS))] if n == 1 else 7
+    OPT[0] = S.flag("int_parameters_annotated_optional") if n <= 2 else False
     RET[0] = ret
     empty = S.flag("empty_payload")
     present = {}
@@ -250,6 +252,7 @@ def h08_bucket_reuse(S):
 
     cname, conv = [("basic", BasicConverter), ("pydantic", PydanticConverter), ("default", DefaultConverter)][S.pick("converter", 3)]
     second_omits = S.flag("second_job_omits_the_optional_argument")
+    args_id = ["shared-args", 'a"b\\c', "ключ-аргументов"][S.pick("args_id", 3)]      # the id is free text: quotes, backslashes, non-ASCII
     S.tag("converter", cname)
     got = []
 
@@ -264,9 +267,9 @@ def h08_bucket_reuse(S):
 
         worker = Worker(routers=[r], handle_signals=[], _connection=w.conn, graceful_shutdown_time=1.0, messages_limit=2)
         task = asyncio.create_task(worker.run())
-        await Job("actor", args={"a": 1, "b": 10}, id_="j1", args_id="shared-args", _connection=w.conn).enqueue()
+        await Job("actor", args={"a": 1, "b": 10}, id_="j1", args_id=args_id, _connection=w.conn).enqueue()
         await asyncio.sleep(0.05)
-        await Job("actor", args={"a": 2} if second_omits else {"a": 2, "b": 20}, id_="j2", args_id="shared-args", _connection=w.conn).enqueue()
+        await Job("actor", args={"a": 2} if second_omits else {"a": 2, "b": 20}, id_="j2", args_id=args_id, _connection=w.conn).enqueue()
         await asyncio.wait_for(task, timeout=5)
 
     run_async(main)
